@@ -153,6 +153,9 @@ DestsOf(m) == {n \in Dom(logs) : Hosts(n, m.mount, m.t)}
 Release(p, m) == /\ msgs' = Upd(msgs, p, [m EXCEPT !.released = TRUE])
                  /\ need' = Upd(need, p, NeedFor(m, {}))
                  /\ reach' = Upd(reach, p, {d \in DestsOf(m) : ~Faulty(conn[m.c].n, d)})   \* C14: these must be served whatever else fails
+\* an empty payload has no identity of its own; in a log it is known by where it was published (scripts publish an
+\* empty payload at most once per topic)
+EmptyId(mount, t) == "empty@" \o ToString(<<mount, t>>)
 RetainedAfter(m, p) == IF m.r THEN R!PublishNew(ret, <<m.mount, m.t>>, p) ELSE ret
 
 SendPublish ==
@@ -165,7 +168,9 @@ SendPublish ==
      THEN \* an empty payload cannot be told apart from another one: only its effect on retained state is tracked
           /\ conn' = Upd(conn, Ev.c, Touch(Ev.c, k))
           /\ ret' = RetainedAfter(m, "") /\ clears' = clears \cup {<<k.mount, Ev.t>>}
-          /\ UNCHANGED <<msgs, need, inq2, reach>>
+          \* C14: like any publish it must reach the log of every destination node that can be reached
+          /\ reach' = Upd(reach, EmptyId(k.mount, Ev.t), {d \in DestsOf(m) : ~Faulty(k.n, d)})
+          /\ UNCHANGED <<msgs, need, inq2>>
      ELSE IF Ev.q = 2 /\ <<Ev.c, Ev.id>> \in Dom(inq2)
      THEN \* repeated PUBLISH on an open handshake: never forwarded again; the broker may end the session
           /\ conn' = Upd(conn, Ev.c, WithCause(Touch(Ev.c, k), "protocol"))
@@ -228,7 +233,7 @@ LogAppend ==
   /\ Ev.op = "log.append" /\ Ev.n \in Dom(logs)
   /\ IF Ev.p = ""
      THEN /\ <<Ev.mount, Ev.t>> \in clears
-          /\ logs' = (IF Ev.ok THEN Upd(logs, Ev.n, Append(logs[Ev.n], "")) ELSE logs)
+          /\ logs' = (IF Ev.ok THEN Upd(logs, Ev.n, Append(logs[Ev.n], EmptyId(Ev.mount, Ev.t))) ELSE logs)
           /\ UNCHANGED msgs
      ELSE /\ Ev.p \in Dom(msgs)
           /\ LET m == msgs[Ev.p] IN
